@@ -2846,7 +2846,12 @@ class x86_mn(x86_mn_base):
             if x86_afs.imm in a:
                 if a[x86_afs.ad]: t_size = tab_size2int[x86_afs.u32]
                 else:             t_size = tab_size2int[size]
-                a[x86_afs.imm] = t_size(a[x86_afs.imm])
+                if -t_size.limit//2 <= int(a[x86_afs.imm]) < t_size.limit:
+                    a[x86_afs.imm] = t_size(a[x86_afs.imm])
+                else:
+                    # does not fit the operand size: keep the value, no
+                    # encoding will pass check_imm_size
+                    a[x86_afs.imm] = int32(uint32(a[x86_afs.imm]))
     arg_set_numpy_imm = classmethod(arg_set_numpy_imm)
 
     def normalize_args(self, name, args):
